@@ -50,17 +50,22 @@ CLAIMS = {
 PSMT = "bounded model checking with z3 over the MIR control/event structure of the real orchestration functions (engine P)"
 for _i, _t, _n in [
   ("C03", "Protocol order only: in the commit orchestration every pre-switch-over step of the merkle store completes before Meta::write is issued, every "
-          "post-switch-over step is issued after it, and recovery never writes the hash table after discarding the redo log - for every control path of the real functions.",
+          "post-switch-over step is issued after it, recovery never writes the hash table after discarding the redo log, Store::open validates the meta before anything is opened from it, "
+          "and the rollback log's open lists and cleans its directory whatever the live range - for every control path of the real functions.",
           "Does not decide that file contents decode to the old/new state, nor thread interleavings; beatree and rollback internals outside."),
   ("C04", "The property's own 'equivalently' clause as an event order: writes are fsynced before success is reported / before the redo log is dropped, on every control "
-          "path of write_wal, write_ht, Meta::write, recover, Sync::sync. Found and fixed: recover truncated the WAL without fsyncing the hash table.",
-          "Bitbox + meta side only; beatree and seglog fsync discipline outside; torn sectors outside."),
+          "path of write_wal, write_ht, Meta::write, recover, Sync::sync, the value tree's sync controller, the rollback log's append (incl. the directory entry of a new segment), "
+          "database creation, the background fsyncer's round order. Found and fixed: recover truncated the WAL without fsyncing the hash table.",
+          "What the bytes are and torn sectors are outside; the order of io_uring page writes relative to an fsync is not visible to the strace replays."),
   ("C12", "On every control path of the four commit entry points the previous-root check precedes every effect, no rejecting check follows an applied effect, and a changeset handed back by a deferred non-blocking commit is intact. Found and fixed two genuine defects "
           "(rollback delta appended / overlay marked committed before the check).", "Racing committers (schedules) outside."),
-  ("C14", "No fallible I/O value is dropped uninspected in the listed functions; Store::commit poisons before returning an error. Found and fixed: "
-          "write_ht ignored the result of every hash-table page write.", "Listed functions only; hangs and the beatree/rollback error paths outside."),
-  ("C17", "Bitbox side: before the switch-over only the WAL is written (no HT write, no WAL truncation) - every control path of the pre-meta functions.",
-          "Beatree allocation discipline and seglog pruning outside."),
+  ("C14", "No fallible I/O value is dropped uninspected (nor swallowed on the Err arm of a match, nor by is_err()-then-overwrite) in any function of the storage modules (sweep over ~125 functions) "
+          "and in the targeted orchestration functions; Store::commit and the rollback-log append poison before returning an error; the poisoned flag has the right polarity and value. Found and fixed: "
+          "write_ht ignored the result of every hash-table page write; a failed rollback-log append did not poison.",
+          "Hangs, submit/await pairing counts, errors turned into panics and the reopened state are outside. Replays: I/O-pool write-failure hook and strace fault injection (EIO at the n-th fsync/fdatasync/ftruncate/write/pwrite64 per file)."),
+  ("C17", "Before the switch-over the merkle store writes only the WAL (no hash-table write), the rollback log is not pruned / truncated, and the value tree performs no post-meta step - every "
+          "control path of the pre-meta functions; Sync::sync issues every post-meta step after Meta::write.",
+          "Which pages the value tree's allocator hands out (free-list / bump discipline) is outside."),
   ("C20", "The in-process half of directory exclusivity as an event order on every control path: store::create and Store::open hold the advisory lock "
           "(Flock::lock returned Ok) before any database file is created, opened, read or written and before the I/O pool starts; Flock::lock returns Ok only "
           "on the success arm of try_lock_exclusive; the lock file is never removed, renamed or truncated; Drop for Shared shuts the I/O pool down (channel closed, workers joined) before the lock is released.",
